@@ -89,6 +89,11 @@ def handle (c : Case) : Verdict :=
       let m := showEnc (.ok (if b64 then b64Encode bs else hexEncode bs))
       let (sp, why) := specEnc b64 bs obs
       { corr := m == obs, spec := sp, why, model := m, branch := c.op ++ s!".len%3={bs.length % 3}", nontrivial := !bs.isEmpty }
+  | "hexencN" | "b64encN" =>
+      -- null data pointer: the empty text for size 0, `std::invalid_argument` otherwise (the documented contract)
+      let m := if c.nat "size" == 0 then "ok -" else "throw invalid_argument"
+      { corr := m == obs, spec := m == obs, why := if m == obs then "" else "null data pointer: expected " ++ m, model := m,
+        branch := c.op ++ (if c.nat "size" == 0 then ".empty" else ".invalid_argument"), nontrivial := false }
   | "hexdecA" | "b64decA" =>
       let b64 := c.op == "b64decA"
       let txt := parseUnits 8 (c.get "in")
